@@ -437,3 +437,20 @@ package writer
 //@   loop 1:
 //@     invariant i <= recNum && colWip.cbufidx == old(colWip.cbufidx) + uint32(i) && colWip.deData == old(colWip.deData) && colWip.deData.deCount == old(colWip.deData.deCount)
 //@ end
+
+// read-only accessors of a parsed event (frames and results PROVED)
+//@ func (*ParsedLogEvent).GetIndexName
+//@   props C15
+//@   pure
+//@   ensures result == ple.indexName
+//@ end
+//@ func (*ParsedLogEvent).GetTimestamp
+//@   props C15 C16
+//@   pure
+//@   ensures result == ple.timestampMillis
+//@ end
+//@ func (*ParsedLogEvent).GetRawJson
+//@   props C15 C16
+//@   pure
+//@   ensures samebase(result, ple.rawJson) && len(result) == len(ple.rawJson)
+//@ end
